@@ -22,7 +22,7 @@ TRUSTED = ['harness/ebb3_fake.py: fake serial port, script player, stubs for ser
            'packaging.version as release-segment order; str.strip/int()/f-string of ints (differentially tested each run)']
 ASSUMPTIONS = ['arguments are of the documented types (ints, ASCII strings, None where optional)',
                'device bytes are ASCII (UnicodeDecodeError on non-ASCII device bytes is outside the alphabet)',
-               'the only exception a port raises is serial.SerialException (or a subclass)',
+               'a port raises serial.SerialException, PortNotOpenError, or a plain OSError/IOError (all injected; one raise outcome in the model)',
                'find_first/find_named results and whether serial.Serial() opens are inputs of connect (C19/C15 model them)']
 STAGED = []
 
@@ -50,6 +50,17 @@ def oracle(ctx, sc, recs, desc):
                 elif not F.is_failure(r['ret']):
                     F.violate(ctx, f'{name} does not return a failure value although the object is blocked', where,
                                 repr(r['ret']), 'False / None / (None, None)', key=f'C04:{name}:no-failure-value')
+        # write granularity: the port records, at every write, whether an error was already recorded (or the port
+        # already dropped) at that moment - also in the middle of a multi-command method
+        if name != 'connect':
+            for ev in r['events']:
+                if ev[0] == 'w' and (ev[3] or ev[4]):
+                    nontrivial = True
+                    F.violate(ctx, f'{name} transmits after an error was recorded (within the call)' if ev[3]
+                              else f'{name} transmits on a port that was already dropped', where,
+                              {'written_after_error': ev[1], 'all_written': r['written'], 'err': r['err']},
+                              'no bytes written once an error is recorded', key=f'C04:{name}:writes-after-error')
+                    break
         if latched is not None and r['err'] != latched:
             F.violate(ctx, f'{name} replaces the recorded error', where, {'before': latched, 'after': r['err']},
                         'the first message is kept', key=f'C04:{name}:message-replaced')
@@ -66,6 +77,12 @@ def oracle(ctx, sc, recs, desc):
 
 
 def c04_ignore(sc, recs, k, r, outs):
+    if F.escaped_known(r):
+        return {'result'}
+    return _c04_ignore(sc, recs, k, r, outs)
+
+
+def _c04_ignore(sc, recs, k, r, outs):
     """C04's theorems speak about: everything a *blocked* call does, and for every call the bytes written, the
     reads, `err` and `port`.  The return value and the nickname attribute of a call that starts on a
     connected, error-free object belong to C05 and are compared there; for a blocked call the nickname is
